@@ -55,6 +55,9 @@ TNext == /\ Is("next") /\ live
 Next == TReset \/ TNew \/ TNext
 Spec == Init /\ [][Next]_vars
 
+\* reaching the end of the trace ends the search at once (reported by TLC as a violation of NotDone = accepted);
+\* otherwise the postcondition reports the longest matched prefix
+NotDone == l <= Len(Rec)
 Matched == TLCGet("stats").diameter - 1
 TraceAccepted ==
     \/ Matched = Len(Rec)
